@@ -3,16 +3,31 @@
    which is written against the path specification ([delivered], [hooks_due], [accepts],
    [min_delivered]) and never calls [check]/[enabled]/[level_of].  No proofs in this file.
 
-   input  = (tree cells obs ops)
+   input  = (tree cells obs ops [mode])     mode 1: the harness built the root logger with Config.Build
+                                            of a live zap.Config on cell 0 - the Config's own ioCore is the
+                                            first branch (leaf 900) of the tee shown; the model does not read it
      tree  = (0 id en) leaf | (1) no-op | (2 t ...) NewTee | (3 t h) RegisterHooks
            | (4 t en) NewIncreaseLevelCore (on error the wrapped core is kept and the error counted)
            | (5 t) sampler that never drops (first = 2^30) | (6 t) NewLazyWith | (7 t) t.With(fields)
            | (8 t first thereafter) NewSamplerWithOptions(t, 1h, first, thereafter): it really drops
      en    = (0 t) zapcore.Level t | (1 a) AtomicLevel cell a | (2 #tbl) LevelEnablerFunc, tbl[l+128] <> 0
      cells = (v ...) initial AtomicLevel values;  obs = (id ...) leaves that are observer cores
-     op    = (0 a v) SetLevel | (1 fam l) log call | (2 l) Core.Enabled(l)
-           | (3) (Logger.Level, LevelOf(core)) | (4 n) zapgrpc V(n) | (5) logger = logger.With(fields)
+     op    = (0 a v [hk]) SetLevel | (1 fam l) log call | (2 l) Core.Enabled(l)
+           | (3) (Logger.Level, LevelOf(core)) | (4 n) zapgrpc V(n)
+           | (5 [k [t]]) a new logger is derived from the current one and becomes the current one:
+               k = 0 With(fields) | 1 WithLazy(fields) | 2 Named | 3 WithOptions(AddCallerSkip)
+                 | 4 Sugar().Desugar() | 5 WithOptions(IncreaseLevel(zapcore.Level t))
+           | (6 a route hk #text) the text is sent to cell a by route (C05/Updates.v: 1 UnmarshalText,
+               2 flag.TextVar, 3 encoding/json, 4 yaml.v3, 5 HTTP PUT with a JSON body, 6 HTTP PUT with a
+               form) through a handle of kind hk (0 the variable the cores were built from, 1 a copy of
+               the struct made now, 2 the Level field of a live zap.Config, 3 a copy made before the cores
+               were built / the handler registered with an http.ServeMux).  A handle IS its cell: the
+               model does not look at hk
+           | (7 a hk) Level() read through a handle of kind hk of cell a
+           | (8 j) the j-th logger derived so far (0 = the root) becomes the current one
    observation = (nerr (o ...)), one o per op:
+     (6 ..) -> (ok lu lo): ok = the route reported success, lu / lo = Level() read afterwards through
+             the handle used / through the variable the cores were built from;  (7 ..) -> Level()
      call -> ((ev ...) (count ...) evals ((k d) ...)): ev = (0 id)/(1 h) in write order for IO leaves and
              hooks, count per observer leaf, evals = user payload evaluations, (k d) = the decision
              sampler number k (pre-order position among the samplers of the tree) reported through its
@@ -22,7 +37,7 @@
 From Coq Require Import List ZArith Bool Lia Arith.
 From Coq.Strings Require Import Byte.
 Import ListNotations.
-From Zap Require Import Base.Wire C05.Cores C05.Sampling.
+From Zap Require Import Base.Wire C05.Cores C05.Sampling C05.Updates.
 Open Scope Z_scope.
 
 Definition tbl_fn (tb : list bool) : level -> bool := fun l => nth (Z.to_nat (l + 128)) tb false.
@@ -90,7 +105,8 @@ Definition msg_class (f : fam) : nat :=
 
 Inductive op :=
 | OSet (a : nat) (v : Z) | OCall (f : fam) (l : level) | OEnabled (l : level)
-| OLevel | OV (n : Z) | OWith.
+| OLevel | OV (n : Z) | ODerive (k : Z) (t : level)
+| OUpd (a : nat) (r : Z) (t : bytes) | OHandle (a : nat) | OSel (j : nat).
 Definition dec_op (s : sx) : op :=
   match sx_z (sx_nth s 0) with
   | 0 => OSet (sx_n (sx_nth s 1)) (sx_z (sx_nth s 2))
@@ -98,7 +114,20 @@ Definition dec_op (s : sx) : op :=
   | 2 => OEnabled (sx_z (sx_nth s 1))
   | 3 => OLevel
   | 4 => OV (sx_z (sx_nth s 1))
-  | _ => OWith
+  | 5 => ODerive (sx_z (sx_nth s 1)) (sx_z (sx_nth s 2))
+  | 6 => OUpd (sx_n (sx_nth s 1)) (sx_z (sx_nth s 2)) (sx_b (sx_nth s 4))
+  | 7 => OHandle (sx_n (sx_nth s 1))
+  | _ => OSel (sx_n (sx_nth s 1))
+  end.
+
+(* the core of a logger derived from the logger over c.  [ok] is NewIncreaseLevelCore's validation:
+   zap.IncreaseLevel (options.go) keeps the core on error *)
+Definition derive (ok : world -> core -> enabler -> bool) (w : world) (c : core) (k : Z) (t : level) : core :=
+  match k with
+  | 0 => with_core c                                     (* l.core = l.core.With(fields) *)
+  | 1 => Lazy c                                          (* WrapCore(NewLazyWith(core, fields)) *)
+  | 5 => if ok w c (ELvl t) then Filter c (ELvl t) else c
+  | _ => c                                               (* clone(): the same core *)
   end.
 
 Definition world_of (cells : sx) : world := fun a => sx_z (nth a (sx_l cells) (SZ 0)).
@@ -112,12 +141,18 @@ Definition dec_event (s : sx) : writer :=
 Definition visible (obs : list nat) (x : writer) : bool :=
   match x with WLeaf i => is_io obs i | WHook _ => true end.
 
-(* state carried along a history: the cells and the current logger's core *)
-Definition next_state (w : world) (c : core) (o : op) : world * core :=
+(* state carried along a history: the cells, the current logger's core, the cores of all loggers
+   derived so far (root first).  [ok] = the validation of NewIncreaseLevelCore, [uv] = the level a
+   text stores by a route: the model runs the code's, the oracle the specification's *)
+Definition lstate := (world * core * list core)%type.
+Definition next_state (ok : world -> core -> enabler -> bool) (uv : Z -> bytes -> option level)
+    (w : world) (c : core) (cs : list core) (o : op) : lstate :=
   match o with
-  | OSet a v => (set_cell w a v, c)
-  | OWith => (w, with_core c)
-  | _ => (w, c)
+  | OSet a v => (set_cell w a v, c, cs)
+  | OUpd a r t => (apply_value w a (uv r t), c, cs)
+  | ODerive k t => let c' := derive ok w c k t in (w, c', cs ++ [c'])
+  | OSel j => (w, nth j cs c, cs)
+  | _ => (w, c, cs)
   end.
 
 (* ---------------- the model's observation ---------------- *)
@@ -128,7 +163,11 @@ Definition reported_drop (reports : list sx) : decisions :=
 
 Definition model_op (obs : list nat) (ps : list (Z * Z)) (st : counters) (w : world) (c : core) (o : op) : sx :=
   match o with
-  | OSet _ _ | OWith => SL []
+  | OSet _ _ | ODerive _ _ | OSel _ => SL []
+  | OUpd a r t =>
+      let w' := apply_upd w a r t in
+      SL [of_bool (is_some (upd_value r t)); SZ (w' a); SZ (w' a)]
+  | OHandle a => SZ (w a)
   | OCall f l =>
       let dec := counter_dec st ps l (msg_class f) in
       let ws := call_writers_s dec w c f l in
@@ -146,18 +185,20 @@ Definition next_counters (ps : list (Z * Z)) (st : counters) (w : world) (c : co
   | OCall f l => let m := msg_class f in bump st (call_consulted (counter_dec st ps l m) w c f l) l m
   | _ => st
   end.
-Fixpoint model_ops (obs : list nat) (ps : list (Z * Z)) (st : counters) (w : world) (c : core) (ops : list op) : list sx :=
+Fixpoint model_ops (obs : list nat) (ps : list (Z * Z)) (st : counters) (w : world) (c : core) (cs : list core)
+    (ops : list op) : list sx :=
   match ops with
   | [] => []
   | o :: r => model_op obs ps st w c o ::
-              (let '(w', c') := next_state w c o in model_ops obs ps (next_counters ps st w c o) w' c' r)
+              (let '(w', c', cs') := next_state increase_ok upd_value w c cs o in
+               model_ops obs ps (next_counters ps st w c o) w' c' cs' r)
   end.
 
 Definition model (i : sx) : sx :=
   let w0 := world_of (sx_nth i 1) in
   let obs := map sx_n (sx_l (sx_nth i 2)) in
   let '(c, nerr) := build_with increase_ok w0 (sx_nth i 0) in
-  SL [of_nat nerr; SL (model_ops obs (sparams (sx_nth i 0)) (fun _ _ _ => 0) w0 c (map dec_op (sx_l (sx_nth i 3))))].
+  SL [of_nat nerr; SL (model_ops obs (sparams (sx_nth i 0)) (fun _ _ _ => 0) w0 c [c] (map dec_op (sx_l (sx_nth i 3))))].
 
 (* ---------------- the oracle ---------------- *)
 Fixpoint nat_list_eqb (a b : list nat) : bool :=
@@ -182,7 +223,15 @@ Definition cells_in_range_b (w : world) (c : core) : bool :=
 
 Definition spec_op (obs : list nat) (w : world) (c : core) (o : op) (x : sx) : bool :=
   match o with
-  | OSet _ _ | OWith => true
+  | OSet _ _ | ODerive _ _ | OSel _ => true
+  | OUpd a r t =>
+      (* the route succeeds exactly on a level name; afterwards every handle of the cell - the one
+         used and the one the cores were built from - reads what the text names (the old value when
+         it names nothing) *)
+      let w' := spec_apply_upd w a r t in
+      Bool.eqb (sx_bool (sx_nth x 0)) (is_some (spec_upd_value r t)) &&
+      Z.eqb (sx_z (sx_nth x 1)) (w' a) && Z.eqb (sx_z (sx_nth x 2)) (w' a)
+  | OHandle a => Z.eqb (sx_z x) (w a)
   | OCall f l =>
       let ws := map dec_event (sx_l (sx_nth x 0)) in
       (* the samplers that reported a drop during this call; the leaves beneath them are excused *)
@@ -210,10 +259,12 @@ Definition spec_op (obs : list nat) (w : world) (c : core) (o : op) (x : sx) : b
       (negb (cells_in_range_b w c) || Z.eqb v (min_delivered w c))
   | OV n => Bool.eqb (sx_bool x) (accepts w c (grpc_level n))
   end.
-Fixpoint spec_ops (obs : list nat) (w : world) (c : core) (ops : list op) (xs : list sx) : bool :=
+Fixpoint spec_ops (obs : list nat) (w : world) (c : core) (cs : list core) (ops : list op) (xs : list sx) : bool :=
   match ops, xs with
   | [], [] => true
-  | o :: r, x :: xs' => spec_op obs w c o x && (let '(w', c') := next_state w c o in spec_ops obs w' c' r xs')
+  | o :: r, x :: xs' =>
+      spec_op obs w c o x &&
+      (let '(w', c', cs') := next_state spec_increase_ok spec_upd_value w c cs o in spec_ops obs w' c' cs' r xs')
   | _, _ => false
   end.
 
@@ -222,4 +273,4 @@ Definition spec (i o : sx) : bool :=
   let obs := map sx_n (sx_l (sx_nth i 2)) in
   let '(c, nerr) := build_with spec_increase_ok w0 (sx_nth i 0) in
   Nat.eqb (sx_n (sx_nth o 0)) nerr &&
-  spec_ops obs w0 c (map dec_op (sx_l (sx_nth i 3))) (sx_l (sx_nth o 1)).
+  spec_ops obs w0 c [c] (map dec_op (sx_l (sx_nth i 3))) (sx_l (sx_nth o 1)).
